@@ -1,4 +1,5 @@
 import RgVerif.Lemmas.GitLine
+import RgVerif.Lemmas.GitPrefix
 /-
 `add_line` and git's `parse_path_pattern` on the literal sub-grammar, stage by stage; then `LineAgree`.
 -/
@@ -285,7 +286,18 @@ theorem lineAgree_mkLine (neg abs dir : Bool) (comps : List (List Nat)) (h : okC
   have hm := rgGlob_matches neg abs dir comps h rel hwf
   have hw1 := wm_core false true (joinPath comps) hf.all (rel.getLast?.getD [])
   have hw2 := wm_core true true (joinPath comps) hf.all (joinPath rel)
-  simp only [GiGlob.hits, GitSpec.patMatches, hm, hw1, hw2, joinComps_eq]
+  have hd : GitSpec.okDstarPos (joinPath comps) = true := by
+    apply GitSpec.okDstarPos_of_literal
+    intro c hc
+    have := hf.all c hc
+    simp only [coreChar, plain, Bool.or_eq_true, Bool.and_eq_true, beq_iff_eq] at this
+    rcases this with h1 | h1
+    · have h2 := h1.2
+      simp only [Bool.not_eq_eq_eq_not, Bool.not_true, List.contains_eq_mem, List.mem_cons,
+        List.not_mem_nil, or_false, decide_eq_false_iff_not, not_or] at h2
+      simp [GitSpec.isGlobSpecial, h2.1, h2.2.1, h2.2.2.1, h2.2.2.2.1]
+    · subst h1; decide
+  simp only [GiGlob.hits, GitSpec.patMatches, GitSpec.matchPathname_eq_wm _ _ _ hd, hm, hw1, hw2, joinComps_eq]
   simp only [rgGlobOf]
   cases (!abs && !(decide (2 ≤ comps.length))) <;> simp [Bool.and_comm]
 
